@@ -45,7 +45,7 @@ class Gen:
         x = r.below(100)
         if self.anchors and x < 6:
             return {'k': 'A', 'name': r.choice(self.anchors)}
-        if self.allow_omit and x >= 94:
+        if self.allow_omit and x >= 90:
             n = {'k': 'N', 'anchor': None, 'tag': None}
             if r.chance(2, 5):
                 # a node with properties but no content: still a (null) node of its own
@@ -112,7 +112,7 @@ class Gen:
         if n['k'] == 'Q':
             for x in n['items']:
                 self.decide(x, fl)
-                if fl and x['k'] == 'M' and len(x['pairs']) == 1 and not x.get('anchor') and not x.get('tag') and self.r.chance(1, 2):
+                if fl and x['k'] == 'M' and len(x['pairs']) == 1 and not x.get('anchor') and not x.get('tag') and self.r.chance(3, 4):
                     x['single'] = True
         else:
             for k, v in n['pairs']:
@@ -572,8 +572,8 @@ BLOCK_KINDS = [('t', 'a'), ('t', 'b c'), ('t', '# x'), ('t', '- y'), ('m', ' d')
 
 
 def block_render(ctx, style, chomp, lines, final_nl, explicit, comment):
-    head, ci = {'top': ('', 1), 'seq': ('- ', 1), 'map': ('k: ', 1), 'nest': ('a:\n  - ', 3), 'deep': ('a:\n  b:\n    c: ', 6)}[ctx]
-    parent = {'top': 0, 'seq': 0, 'map': 0, 'nest': 2, 'deep': 4}[ctx]
+    head, ci = {'top': ('', 1), 'doc0': ('--- ', 0), 'seq': ('- ', 1), 'map': ('k: ', 1), 'nest': ('a:\n  - ', 3), 'deep': ('a:\n  b:\n    c: ', 6)}[ctx]
+    parent = {'top': 0, 'doc0': 0, 'seq': 0, 'map': 0, 'nest': 2, 'deep': 4}[ctx]
     m = ci - parent
     hdr = style + {'strip': '-', 'clip': '', 'keep': '+'}[chomp] + (str(m) if explicit else '')
     if explicit and comment == 2:
@@ -593,9 +593,11 @@ def block_cases(maxlines, kinds=BLOCK_KINDS):
         for combo in itertools.product(kinds, repeat=n):
             for style in '|>':
                 for chomp in ('strip', 'clip', 'keep'):
-                    for ctx in ('top', 'seq', 'map', 'nest', 'deep'):
+                    for ctx in ('top', 'doc0', 'seq', 'map', 'nest', 'deep'):
                         for final_nl in (True, False):
                             for explicit in (False, True):
+                                if ctx == 'doc0' and (explicit or any(k == 'm' for k, _ in combo) or any(k == 'e' and p > 0 for k, p in combo)):
+                                    continue      # content at column 0: auto-detected indentation only, no more-indented lines
                                 if not explicit:
                                     first = [c for c in combo if c[0] != 'e']
                                     if first and first[0][0] == 'm':
@@ -730,7 +732,19 @@ def damage(r, text, which):
     if which == 'bad-entry-indent':
         return r.choice(['a:\n    - b\n  - c\n', 'a:\n   b: 1\n  c: 2\n', 'k:\n  - a\n - b\n'])
     if which == 'flow-not-deeper':
-        return r.choice(['a:\n  b: [x,\ny]\n', 'k: {a: 1,\nb: 2}\n', '- [a,\nb]\n' if False else 'x:\n  - [a,\n b]\n'])
+        # a flow collection in a block context whose continuation line starts at (or left of) the parent's column;
+        # the bracket may follow node properties, and the continuation may start with any kind of token
+        pos, ind = r.choice([('- ', 0), ('k: ', 0), ('? ', 0), ('top:\n  - ', 2), ('top:\n  k: ', 2)])
+        pre = r.choice(['', '', '&x ', '!t ', '&x !t '])
+        op, cl = r.choice([('[', ']'), ('{', '}')])
+        first = r.choice(['a', '"a"', 'CLOSE', '[b]', '!t a', "'s'", '\ta', '&y a'])
+        if first == 'CLOSE':
+            body, tail = cl, ''
+        else:
+            body = first if op == '[' else ('? [b]: 1' if first == '[b]' else first + ': 1')
+            tail = cl
+        col = r.choice(sorted({0, ind}))
+        return pos + pre + op + '\n' + ' ' * col + body + tail + '\n'
     if which == 'quoted-key-multiline':
         return r.choice(['"a\nb": c\n', "'a\n b': c\n", '{ "a\n  b": c }\n' if False else '"k\n  l": v\n'])
     if which == 'long-key':
